@@ -1061,6 +1061,53 @@ Section Early.
       + inversion H; subst. exists []. repeat split; reflexivity.
   Qed.
 
+  (* the update loops: the add lists only grow, and a slice changes only together with its add list *)
+  Lemma update_p_any : forall is l pf w w' b, mod_update_p is l pf w = (w', b) ->
+    w_f w' = w_f w /\ w_q w' = w_q w /\ w_addf w' = w_addf w /\ w_addq w' = w_addq w /\
+    (length (w_addp w) <= length (w_addp w'))%nat /\ (length (w_addp w') = length (w_addp w) -> w_p w' = w_p w).
+  Proof.
+    induction is as [|i is IH]; intros l pf w w' b H; cbn [mod_update_p] in H.
+    - inversion H; subst. repeat split; auto.
+    - destruct (parse_pdr i l pf (w_pool w)) as [pl [p|]].
+      + destruct (find_idx (fun x => p_id x =? p_id p) (view (w_p w))) as [k|].
+        * destruct (IH _ _ _ _ _ H) as (A1 & A2 & A3 & A4 & A5 & A6). cbn [w_p w_f w_q w_addp w_addf w_addq] in *.
+          rewrite app_length in A5. cbn [length] in A5. repeat split; try assumption; try lia.
+        * destruct (IH _ _ _ _ _ H) as (A1 & A2 & A3 & A4 & A5 & A6). unfold w_with_pool in *. cbn [w_p w_f w_q w_addp w_addf w_addq] in *.
+          repeat split; assumption.
+      + inversion H; subst. unfold w_with_pool. cbn [w_p w_f w_q w_addp w_addf w_addq]. repeat split; auto.
+  Qed.
+  Lemma update_f_any : forall is l x y w w' b, mod_update_f is l x y w = (w', b) ->
+    w_p w' = w_p w /\ w_q w' = w_q w /\ w_addp w' = w_addp w /\ w_addq w' = w_addq w /\
+    (length (w_addf w) <= length (w_addf w'))%nat /\ (length (w_addf w') = length (w_addf w) -> w_f w' = w_f w).
+  Proof.
+    induction is as [|i is IH]; intros l x y w w' b H; cbn [mod_update_f] in H.
+    - inversion H; subst. repeat split; auto.
+    - destruct (parse_far i l x y true) as [f|].
+      + destruct (find_idx (fun x0 => a_id x0 =? a_id f) (view (w_f w))) as [k|].
+        * destruct (IH _ _ _ _ _ _ H) as (A1 & A2 & A3 & A4 & A5 & A6). cbn [w_p w_f w_q w_addp w_addf w_addq] in *.
+          rewrite app_length in A5. cbn [length] in A5. repeat split; try assumption; try lia.
+        * apply (IH _ _ _ _ _ _ H).
+      + inversion H; subst. repeat split; auto.
+  Qed.
+  Lemma update_q_any : forall is l w w' b, mod_update_q is l w = (w', b) ->
+    w_p w' = w_p w /\ w_f w' = w_f w /\ w_addp w' = w_addp w /\ w_addf w' = w_addf w /\
+    (length (w_addq w) <= length (w_addq w'))%nat /\ (length (w_addq w') = length (w_addq w) -> w_q w' = w_q w).
+  Proof.
+    induction is as [|i is IH]; intros l w w' b H; cbn [mod_update_q] in H.
+    - inversion H; subst. repeat split; auto.
+    - destruct (parse_qer i l) as [q|].
+      + destruct (find_idx (fun x0 => q_id x0 =? q_id q) (view (w_q w))) as [k|].
+        * destruct (IH _ _ _ _ H) as (A1 & A2 & A3 & A4 & A5 & A6). cbn [w_p w_f w_q w_addp w_addf w_addq] in *.
+          rewrite app_length in A5. cbn [length] in A5. repeat split; try assumption; try lia.
+        * apply (IH _ _ _ _ H).
+      + inversion H; subst. repeat split; auto.
+  Qed.
+  Lemma parse_all_length {I R} (f : I -> option R) : forall is rs, parse_all f is = Some rs -> length rs = length is.
+  Proof.
+    induction is as [|i is IH]; intros rs H; cbn [parse_all] in H; [inversion H; reflexivity|].
+    destruct (f i); [|discriminate]. destruct (parse_all f is) as [rs'|]; [|discriminate]. cbn in H. inversion H; subst. cbn. rewrite (IH _ eq_refl). reflexivity.
+  Qed.
+
   (* the handler when a loop stops *)
   Lemma handle_mod_early a c seid cpf cp cf cq up uf uq rp rf rq s0 w k :
     find_session seid (c_sessions c) = Some s0 ->
@@ -1079,12 +1126,16 @@ Section Early.
     destruct (mod_update_q uq seid w5) as [w6 [|]]; [discriminate|inversion HL; reflexivity].
   Qed.
 
-  Definition early_ok (s0 : session) (k : nat) : bool :=
-    Nat.leb k 3 && slice_wf (s_pdrs s0) && slice_wf (s_fars s0) && slice_wf (s_qers s0).
+  (* the stopped loop was a Create loop, or an Update loop before which no update had hit a stored rule (the lists
+     of written rules hold the created ones only); the stored slices are well formed *)
+  Definition early_ok (s0 : session) (k : nat) (w : work) (cp : list pdr_ie) (cf : list far_ie) (cq : list qer_ie) : bool :=
+    (Nat.leb k 3 || (Nat.eqb (length (w_addp w)) (length cp) && Nat.eqb (length (w_addf w)) (length cf) && Nat.eqb (length (w_addq w)) (length cq)))
+    && slice_wf (s_pdrs s0) && slice_wf (s_fars s0) && slice_wf (s_qers s0).
 
-  (* the stopped loop was a Create loop: the working slices are the stored ones with rules appended *)
+  (* then the working slices are the stored ones with rules appended *)
   Lemma early_create_shape a c s0 seid cp cf cq up uf uq w k :
-    mod_loops a c s0 seid cp cf cq up uf uq = (w, S k) -> (S k <= 3)%nat ->
+    mod_loops a c s0 seid cp cf cq up uf uq = (w, S k) ->
+    (S k <= 3)%nat \/ (length (w_addp w) = length cp /\ length (w_addf w) = length cf /\ length (w_addq w) = length cq) ->
     exists ps fs qs, w_p w = app_slice (s_pdrs s0) ps /\ w_f w = app_slice (s_fars s0) fs /\ w_q w = app_slice (s_qers s0) qs.
   Proof.
     unfold mod_loops. intros HL Hk.
@@ -1097,15 +1148,37 @@ Section Early.
     destruct (mod_create_q cq seid w2) as [w3 b3] eqn:E3.
     destruct (create_q_any _ _ _ _ _ E3) as (qs & C1 & C2 & C3).
     destruct b3; [|inversion HL; subst; exists ps, fs, qs; repeat split; congruence].
-    destruct (mod_update_p up seid (c_pfds c) w3) as [w4 [|]]; [|inversion HL; lia].
-    destruct (mod_update_f uf seid _ _ w4) as [w5 [|]]; [|inversion HL; lia].
-    destruct (mod_update_q uq seid w5) as [w6 [|]]; [discriminate|inversion HL; lia].
+    (* the add lists after the three completed Create loops *)
+    destruct (create_p_spec _ _ _ _ _ E1) as (ps' & pl & -> & Lp).
+    destruct (create_f_spec _ _ _ _ _ _ E2) as (fs' & Pf & ->).
+    destruct (create_q_spec _ _ _ _ E3) as (qs' & Pq & ->).
+    pose proof (parse_all_length _ _ _ Pf) as Lf. pose proof (parse_all_length _ _ _ Pq) as Lq.
+    cbn [w_p w_f w_q w_addp w_addf w_addq app] in *.
+    destruct (mod_update_p up seid (c_pfds c) _) as [w4 b4] eqn:E4.
+    destruct (update_p_any _ _ _ _ _ _ E4) as (D1 & D2 & D3 & D4 & D5 & D6). cbn [w_p w_f w_q w_addp w_addf w_addq] in *.
+    rewrite map_length in D5, D6.
+    destruct b4.
+    2:{ injection HL as Hw Hkk. subst w k. destruct Hk as [Hk|(K1 & K2 & K3)]; [lia|].
+        exists ps', fs', qs'. rewrite D1, D2, D6 by lia. repeat split; reflexivity. }
+    destruct (mod_update_f uf seid _ _ w4) as [w5 b5] eqn:E5.
+    destruct (update_f_any _ _ _ _ _ _ _ E5) as (F1 & F2 & F3 & F4 & F5 & F6).
+    destruct b5.
+    2:{ injection HL as Hw Hkk. subst w k. destruct Hk as [Hk|(K1 & K2 & K3)]; [lia|].
+        exists ps', fs', qs'. rewrite F1, F2, F6, D1, D2, D6 by (rewrite ?D3; lia || congruence). repeat split; reflexivity. }
+    destruct (mod_update_q uq seid w5) as [w6 b6] eqn:E6.
+    destruct (update_q_any _ _ _ _ _ E6) as (G1 & G2 & G3 & G4 & G5 & G6).
+    destruct b6; [discriminate|]. injection HL as Hw Hkk. subst w k. destruct Hk as [Hk|(K1 & K2 & K3)]; [lia|].
+    exists ps', fs', qs'.
+    assert (w_p w6 = w_p w4) as -> by congruence. assert (w_f w6 = w_f w5) as -> by congruence.
+    rewrite G6 by (rewrite F4, D4; lia). rewrite F2, D2.
+    rewrite F6 by (rewrite D3; rewrite <- G4; lia). rewrite D1.
+    rewrite D6 by (rewrite <- F3, <- G3; lia). repeat split; reflexivity.
   Qed.
 
   Lemma mod_early_image a c seid cpf cp cf cq up uf uq rp rf rq s0 w k a' c' o :
     find_session seid (c_sessions c) = Some s0 ->
     mod_loops a c s0 seid cp cf cq up uf uq = (w, S k) ->
-    early_ok s0 (S k) = true ->
+    early_ok s0 (S k) w cp cf cq = true ->
     handle_mod burst a c seid cpf cp cf cq up uf uq rp rf rq = Done (a', c', o) ->
     exists s', c_sessions c' = replace_session s' (c_sessions c) /\ s_lseid s' = s_lseid s0 /\
       a_tables a' = a_tables a /\ o_cmds o = [] /\ o_reply o = Some (RMod (new_rseid cpf s0) CAUSE_REJ) /\
@@ -1113,8 +1186,12 @@ Section Early.
   Proof.
     intros Hf HL HG H. rewrite (handle_mod_early _ _ _ cpf _ _ _ _ _ _ rp rf rq _ _ _ Hf HL) in H. inversion H; subst a' c' o; clear H.
     unfold early_ok in HG. apply andb_true_iff in HG. destruct HG as [HG W3]. apply andb_true_iff in HG. destruct HG as [HG W2].
-    apply andb_true_iff in HG. destruct HG as [Hk W1]. apply Nat.leb_le in Hk.
-    destruct (early_create_shape _ _ _ _ _ _ _ _ _ _ _ _ HL Hk) as (ps & fs & qs & A & B & C).
+    apply andb_true_iff in HG. destruct HG as [Hk W1].
+    assert ((S k <= 3)%nat \/ (length (w_addp w) = length cp /\ length (w_addf w) = length cf /\ length (w_addq w) = length cq)) as Hk'.
+    { apply orb_true_iff in Hk. destruct Hk as [Hk|Hk]; [left; apply Nat.leb_le; exact Hk|right].
+      apply andb_true_iff in Hk. destruct Hk as [Hk K3]. apply andb_true_iff in Hk. destruct Hk as [K1 K2].
+      apply Nat.eqb_eq in K1, K2, K3. repeat split; assumption. }
+    destruct (early_create_shape _ _ _ _ _ _ _ _ _ _ _ _ HL Hk') as (ps & fs & qs & A & B & C).
     eexists. split; [reflexivity|]. split; [reflexivity|]. split; [reflexivity|]. split; [reflexivity|]. split; [reflexivity|].
     unfold session_cmds, alias_back. cbn [s_pdrs s_fars s_qers]. rewrite A, B, C.
     rewrite !alias_view_kept by assumption. reflexivity.
